@@ -30,6 +30,7 @@ def run(ctx):
         ctx.stage("protocol-" + name, kind="E", states=e.distinct, generated=e.generated)
     scan_trace(ctx)
     dcwin_trace(ctx)
+    block_queries(ctx)
 
 
 def scan_trace(ctx):
@@ -114,3 +115,38 @@ def dcwin_trace(ctx):
     ctx.counts["distinct_nontrivial"] += stats.get("nonempty", 0)
     ctx.stage("V-dcwin", kind="V", records=stats["records"], events=stats["events"], window_moved=stats.get("nonempty", 0),
               edges_triangulated=stats["tris"])
+
+
+def block_queries(ctx):
+    """V: the region-filter queries of the real MarchingCubesFilter / MarchingSquaresFilter (observed by the
+    harness's own filter) are exactly those of BlockPieces' Volume / SplitAxis / Split operators."""
+    quick = ctx.tier == "quick"
+    rpath = os.path.join(ctx.dir, "records-blocks.ndjson")
+    spath = os.path.join(ctx.dir, "stats-blocks.json")
+    ctx.drv(["c12-blocks", "out=" + rpath, "stats=" + spath, "rounds=%d" % (3 if quick else 40), "seed=%d" % ctx.seed])
+    stats = json.load(open(spath))
+    if stats.get("records", 0) == 0 or stats.get("nonempty", 0) == 0:
+        raise Infra("blocks driver recorded %s" % stats)
+    j = ctx.tlc("J-blocks", "pipeline/BlockJudge", "SPECIFICATION Spec\nCHECK_DEADLOCK FALSE\n",
+                data={"records.ndjson": rpath}, workers=16, timeout=1800)
+    ctx.require_clean(j, "J-blocks")
+    ctx.add_tlc_counts(j)
+    if j.distinct != 2 * stats["records"]:
+        raise Infra("block judge examined %d states for %d records" % (j.distinct, stats["records"]))
+    rejects = j.tagged("REJECT")
+    if rejects:
+        recs = {r["id"]: r for r in vlib.read_ndjson(rpath)}
+        for (_, rid, _l, clause) in rejects:
+            rec = recs[rid]
+            if clause == "answers":
+                raise Infra("the harness's region filter was not a function of the block")
+            ctx.violation("%s:blocks:%s" % (rec["site"], clause),
+                          "%s on a %s-cell grid (GOMAXPROCS=%d): clause %s%s" % (
+                              rec["site"], rec["root"], rec["procs"], clause,
+                              (" panic=" + rec["panic"][:200]) if rec["panic"] else ""),
+                          {"spec": "pipeline/BlockJudge.tla", "record": rec})
+    ctx.counts["traces_validated_against_impl"] += stats["records"]
+    ctx.counts["evaluations"] += stats["records"]
+    ctx.counts["distinct_nontrivial"] += stats.get("nonempty", 0)
+    ctx.stage("V-blocks", kind="V", records=stats["records"], queries=stats["queries"], root_split=stats.get("nonempty", 0),
+              rejected=len(rejects))
